@@ -10,7 +10,10 @@ Record c06_case := mkC06 {
   x_forked : list block;         (* one-block files present in the forked-blocks store *)
   x_live : list event;           (* the live stream's events up to and including the cursor's event *)
   x_events : list event;         (* delivered by the file source *)
-  x_err : N;                     (* 0 nil | 1 stop block reached | 2 cursor-resolution error | 3 other | 4 hang/panic *)
+  x_err : N;                     (* 0 nil | 1 stop block reached | 2 cursor-resolution error | 3 other | 4 hang/panic
+                                    | 6 (W3) a delivered block is not the stored block in full (id, payload, time), or the
+                                      handler object is not the preprocessed object of that block, or a reference is not
+                                      spelled in full: no model outcome and no property clause accepts it (code 3) *)
 }.
 
 Definition err_of (r : rres) : N :=
@@ -90,10 +93,27 @@ Definition c06_prop (k : c06_case) : bool :=
       else false
   end.
 
+(* W3 (conclusion audit): clauses of the property sentence that `c06_prop` left to the model comparison.
+   - "undoes EXACTLY the consumer's pending forked blocks": no Undo of a block of the canonical chain (the fold above accepts
+     an Undo of a held canonical block that is delivered again afterwards);
+   - every delivered event's cursor names the delivered block; after an Undo the consumer's final block is still the one
+     of the cursor it resumed from, after an Irreversible / new-and-irreversible event it is the delivered block: the LIB
+     of the event's cursor says so (a consumer that crashes there resumes from that cursor). *)
+Definition c06_prop_w3 (k : c06_case) : bool :=
+  let c := x_cur k in
+  let canon_ids := ids (x_canon k) in
+  forallb (fun e =>
+    ref_eqb (ecblk e) (bref (eblk e)) &&
+    match estep e with
+    | SUndo => negb (memN (bid (eblk e)) canon_ids) && ref_eqb (elib e) (cu_lib c)
+    | SIrr | SNewIrr => ref_eqb (elib e) (bref (eblk e))
+    | _ => true
+    end) (x_events k).
+
 Definition c06_verdict (k : c06_case) : N :=
   (* bundle size 0 marks "this generated history produced no event, hence no cursor": nothing to decide *)
   if x_bundle k =? 0 then 0 else
   if x_err k =? 4 then 4 else
-  (if c06_corresponds k then 0 else 1) + (if c06_prop k then 0 else 2).
+  (if c06_corresponds k then 0 else 1) + (if c06_prop k && c06_prop_w3 k then 0 else 2).
 Definition c06_verdicts (l : list c06_case) := nonzero (map c06_verdict l).
 Definition c06_in_scope (k : c06_case) : bool := negb (x_err k =? 4) && negb (x_bundle k =? 0).
